@@ -142,7 +142,7 @@ def opt_grid(cls, dim, tier="quick"):
         g = [{"nu": v} for v in ([lo, lo + 1.0, 50.0] if tier == "quick" else [lo, lo + 0.3, lo + 1.0, 5.0, 50.0])]
     elif cls == "JBessel":
         lo = d / 2 - 1
-        g = [{"nu": v} for v in ([lo, d / 2, 5.0] if tier == "quick" else [lo, lo + 0.1, d / 2, 2.0, 5.0, 20.0])]
+        g = [{"nu": v} for v in ([lo, d / 2, 5.0, 50.0] if tier == "quick" else [lo, lo + 0.1, d / 2, 2.0, 5.0, 20.0, 50.0])]
     elif cls == "TPLSimple":
         lo = (d + 1) / 2
         g = [{"nu": v} for v in ([lo, 5.0, 50.0] if tier == "quick" else [lo, lo + 0.5, 5.0, 20.0, 50.0])]
